@@ -42,7 +42,11 @@ class DomainSession:
         dt = np.int64 if init.get("xint") else float
         x0 = np.array(init["x"], dtype=dt)
         y0 = np.array(init["y"], dtype=float)
-        self.w = Weaver(x0.copy(), y0.copy())
+        if init.get("xnone"):
+            # abscissae left to the constructor: the sample index 0..m-1 (x0 is exactly that, see the generators)
+            self.w = Weaver(None, y0.copy())
+        else:
+            self.w = Weaver(x0.copy(), y0.copy())
         self.mx, self.my = x0.astype(float), y0.astype(float)
         self.ox, self.oy = x0.copy(), y0.copy()
         self.omx, self.omy = x0.astype(float), y0.astype(float)
@@ -288,7 +292,11 @@ def make_machine(ctx):
             # the closing recreate+match step is drawn up front and executed when the history ends
             self.term = dict(op="terminal", strategy=strategy, n=n, rule=rule_, kw=kw, extra=extra, seed=seed,
                              extra_first=extra_first)
-            self.sess = DomainSession(dict(x=s["x"], y=s["y"], xint=s["xint"]))
+            init = dict(x=s["x"], y=s["y"], xint=s["xint"])
+            if data.draw(st.integers(0, 5)) == 0:
+                init = dict(x=[float(i) for i in range(len(s["y"]))], y=s["y"], xint=True, xnone=True)
+                ctx.count("constructed-with-x=None")
+            self.sess = DomainSession(init)
 
         def _try(self, op):
             if self.sess.admissible(op):
@@ -328,7 +336,8 @@ def make_machine(ctx):
             if len(x) != len(self.sess.mx):
                 x = self.sess.mx
             L = len(x)
-            mode = data.draw(st.sampled_from(["grid", "offgrid", "ratio", "mixed", "outside"]))
+            mode = data.draw(st.sampled_from(["grid", "offgrid", "ratio", "mixed", "outside", "mixed-outside",
+                                              "mixed-outside"]))
             i = data.draw(st.integers(0, max(0, L - 4)))
             j = data.draw(st.integers(min(L - 1, i + 3), L - 1))
             if mode == "grid":
@@ -347,6 +356,17 @@ def make_machine(ctx):
                 a = data.draw(st.sampled_from([0.0, 0.1, 0.25]))
                 right = float(x[j] - 0.5 * (x[j] - x[j - 1]))
                 op = dict(op="truncate_value", left=a, right=right, lr=True, rr=False)
+            elif mode == "mixed-outside":
+                # one bound a ratio that cuts, the other an absolute value at or beyond the end of the data
+                if data.draw(st.booleans()):
+                    a = data.draw(st.sampled_from([0.1, 0.25, 0.3, 0.5]))
+                    right = float(x[-1] + data.draw(st.sampled_from([0.0, 1.0, 1e3])))
+                    op = dict(op="truncate_value", left=a, right=right, lr=True, rr=False)
+                else:
+                    b = data.draw(st.sampled_from([0.9, 0.75, 0.7, 0.5]))
+                    left = float(x[0] - data.draw(st.sampled_from([0.0, 1.0, 1e3])))
+                    op = dict(op="truncate_value", left=left, right=b, lr=False, rr=True)
+                ctx.count("truncate:ratio+outside-absolute")
             else:
                 op = dict(op="truncate_value", left=float(x[0] - 1.0), right=float(x[j]), lr=False, rr=False)
             self._try(op)
@@ -382,7 +402,7 @@ LETTERS = [
     dict(op="truncate_index", start=1, stop=None), dict(op="truncate_index_rel", start=0, drop=1),
 ]
 BASES = [
-    dict(x=list(range(12)), y=[3.0, 1.0, 4.0, 1.0, 5.0, 9.0, 2.0, 6.0, 5.0, 3.0, 5.0, 8.0], xint=True),
+    dict(x=list(range(12)), y=[3.0, 1.0, 4.0, 1.0, 5.0, 9.0, 2.0, 6.0, 5.0, 3.0, 5.0, 8.0], xint=True, xnone=True),
     dict(x=[0.5, 1.0, 2.5, 3.0, 3.25, 5.0, 8.0, 8.5, 10.0], y=[0.0, 2.0, 2.0, -1.0, 4.0, 4.0, 4.0, 0.5, 1.0], xint=False),
     dict(x=[float(h) for h in range(24)],
          y=[2.1, 1.6, 1.3, 1.1, 1.0, 1.2, 1.9, 2.8, 3.5, 3.9, 4.2, 4.4, 4.6, 4.5, 4.4, 4.5, 4.8, 5.2, 5.6, 5.9, 5.7, 4.9,
